@@ -30,6 +30,8 @@ def queries(tier):
     for tt in (1, 2):
         for p in tc.insert_new_cases(h):
             qs.append(step(PROP, tt, h, 0, p, 0, newmode=1))
+            # the node allocation fails: the tree (incl. colours / balance factors) must be exactly the pre-state, hence still valid
+            qs.append(step(PROP, tt, h, 0, p, 0, newmode=1, extra=["ALLOC_FAIL"]))
         for p in tc.hit_cases(h):
             qs.append(step(PROP, tt, h, 0, p, 1, newmode=1))
             for rc in tc.remcases(h, p):
